@@ -123,8 +123,23 @@ func (w *World) verifyFunc(fc *FuncContract, props []string) (res *UnitResult) {
 				// only hold there vacuously, so its antecedent must be false on this path
 				top := stripParen(cl.Expr)
 				if top.Op == "binary" && top.Name == "==>" {
-					if a, okA := x.evalBoolLenient(top.Args[0], envR); okA {
-						x.oblige(r.st, "ensures", "postcondition (its consequent names a local not yet declared on this path, so the antecedent must be false here): "+cl.Text+r.via, r.pos, x.c.Not(a), cl.Props, cl.Text)
+					// the conjuncts of the antecedent that can be read here: one of them must be false
+					var parts []*Term
+					var split func(e *CE)
+					split = func(e *CE) {
+						e = stripParen(e)
+						if e.Op == "binary" && e.Name == "&&" {
+							split(e.Args[0])
+							split(e.Args[1])
+							return
+						}
+						if a, okA := x.evalBoolLenient(e, envR); okA {
+							parts = append(parts, a)
+						}
+					}
+					split(top.Args[0])
+					if len(parts) > 0 {
+						x.oblige(r.st, "ensures", "postcondition (it names a local not yet declared on this path, so what can be read of its antecedent must be false here): "+cl.Text+r.via, r.pos, x.c.Not(x.c.And(parts...)), cl.Props, cl.Text)
 						continue
 					}
 				}
